@@ -14,6 +14,8 @@ import ShkModel.Driver.C04
 import ShkModel.Driver.C07
 import ShkModel.Driver.C08
 import ShkModel.Driver.C11
+import ShkModel.Driver.C09
+import ShkModel.Driver.C20
 /-! `shkdrv`: the executable model driver.  One request per line
 (`<property> <op> <tokens…>`), one answer per line.  Imports only core-Lean model and
 spec modules, so that it links. -/
@@ -37,6 +39,8 @@ def dispatch (line : String) : String :=
   | "C07" :: rest => C07.handle rest
   | "C08" :: rest => C08.handle rest
   | "C11" :: rest => C11.handle rest
+  | "C09" :: rest => C09.handle rest
+  | "C20" :: rest => C20.handle rest
   | _ => "bad-op"
 
 partial def loop (h : IO.FS.Stream) (out : IO.FS.Stream) : IO Unit := do
